@@ -272,6 +272,15 @@ def converse(c: Dict[str, Any]) -> Dict[str, Any]:
     origin = origin_for(c['origin'], v6)
     origin.response_size = c['resp_size']
     ex = executor_for(c['insecure'])
+    if c.get('cold') and c['host'] != FAIL_NAME:
+        # cold certificate cache for this host: what was generated for it earlier (possibly from another origin's certificate) is gone
+        hn = c['host'].strip('[]') if c['host'].startswith('[') else c['host']
+        for nm in (c['host'], hn):
+            for ext in ('pem', 'pub', 'csr'):
+                try:
+                    os.remove(os.path.join(fx['P']('certs'), '%s.%s' % (nm, ext)))
+                except OSError:
+                    pass
     n_before = len(origin.conns)
     a, b = socket.socketpair()
     ex['q'].put((a, ('127.0.0.1', 51000)))
@@ -570,7 +579,8 @@ def cases(draw: Any) -> Dict[str, Any]:
     return {'origin': origin, 'host': host, 'insecure': draw(st.sampled_from([False, False, True])), 'req': req,
             'resp_size': draw(st.sampled_from([0, 10, 3000, 70000])),
             'writes': draw(st.lists(st.integers(1, max(2, raw_len)), max_size=4)),
-            'split_records': draw(st.lists(st.integers(0, 4000), min_size=1, max_size=6)) if draw(st.integers(0, 3)) == 0 else []}
+            'split_records': draw(st.lists(st.integers(0, 4000), min_size=1, max_size=6)) if draw(st.integers(0, 3)) == 0 else [],
+            'cold': draw(st.integers(0, 2)) == 0}
 
 
 def shards(tier: str) -> List[Dict[str, Any]]:
@@ -590,7 +600,7 @@ def run_shard(spec: Dict[str, Any], seed: int, acc: Any) -> None:
             if info.get('dontcare'):
                 acc.dontcare += 1
             hostkind = 'ipv4' if c['host'][0].isdigit() else 'ipv6' if c['host'].startswith('[') else ('optout' if c['host'].startswith('optout') else 'name')
-            acc.case(c, info['nt'], labels=(('records-split-across-segments',) if c.get('split_records') else ()) + ('origin:' + c['origin'], 'host:' + hostkind, 'insecure' if c['insecure'] else 'secure',
+            acc.case(c, info['nt'], labels=(('records-split-across-segments',) if c.get('split_records') else ()) + (('cold-certificate-cache',) if c.get('cold') else ()) + ('origin:' + c['origin'], 'host:' + hostkind, 'insecure' if c['insecure'] else 'secure',
                                            'stage:%s' % info['stage']))
             return vs
         hyp.drive(cases(), chk, acc, max_examples=spec['examples'], seed=seed, shrink=False, max_rounds=6)
